@@ -218,7 +218,7 @@ mutual
             · exact h
           subst hpc
           simp [pointOfSeq, ownS, maskS, hp, writeG, outOrd_idem, maskC, nanCoord, isNaNBits_nan, ptsBytes]
-        · simp [pointOfSeq, ownS, maskS, hp, writeG, outOrd_idem, maskC, hnan, ptsBytes, coordBytes_maskC]
+        · simp [pointOfSeq, ownS, maskS, hp, writeG, outOrd_idem, maskC, hnan, ptsBytes]
           have := coordBytes_maskC c.order (outOrd c.dims s.hasZ s.hasM).1 (outOrd c.dims s.hasZ s.hasM).2 p
           simpa [maskC] using this
     | .lineString s, _, _, e => by
@@ -255,7 +255,7 @@ mutual
       simp only [canonG, writeG, anySeqs_canonSec_Z _ _ gs hwf.1.1, anySeqs_canonSec_M _ _ gs hwf.1.1,
         List.length_map]
       cases gs with
-      | nil => simp [anySeqs, writeSections, outOrd_idem]
+      | nil => simp [anySeqs, writeSections]
       | cons g rest =>
         simp only [List.isEmpty_cons, Bool.not_false, Bool.and_true, outOrd_idem,
           writeSections_canonSec c _ _ (g :: rest) hwf.1.1]
